@@ -47,6 +47,10 @@ def _menu(client):
         for hl in (req_like, "BAD", "WRONGROLE"):
             for es in (False, True):
                 m.append(("send_headers:%d:%s:%d" % (sid, hl, es), "send_headers", (sid, hl, es)))
+        if sid in (1, 3):
+            # a field whose name is empty, or is nothing but whitespace (which normalisation strips to nothing)
+            m.append(("send_headers:%d:EMPTYNAME:0" % sid, "send_headers", (sid, "EMPTYNAME", False)))
+            m.append(("send_headers:%d:WSNAME:1" % sid, "send_headers", (sid, "WSNAME", True)))
         if not client and sid in (1, 2, 3):
             # an informational (103) block, also on a stream that is only promised so far
             m.append(("send_headers:%d:INFO:0" % sid, "send_headers", (sid, "INFO", False)))
@@ -168,6 +172,10 @@ class Spec:
             return H.ni(H.RESP)
         if kind == "BAD":
             return H.ni(BAD_REQ) if self.client else H.ni([(b"content-type", b"x")])
+        if kind == "EMPTYNAME":
+            return H.ni((H.REQ if self.client else H.RESP) + [(b"", b"v")])
+        if kind == "WSNAME":
+            return [(n.decode(), v.decode()) for n, v in (H.REQ if self.client else H.RESP)] + [(u"\t", u"")]
         if kind == "INFO":
             return H.ni([(b":status", b"103"), (b"link", b"</s.css>")])
         if kind == "WRONGROLE":
